@@ -23,6 +23,7 @@ type vProdScenario struct {
 	FailS3     bool    // offer upload failures
 	FailStore  bool    // offer UpdateOffsets failures
 	P, D       int     // per-scenario bounds (0 = the check's default)
+	Delay      bool    // delay bounding: every non-default thread choice counts against P (for 3-thread / long scenarios)
 	AutoCreate bool    // the topic does not exist yet: the first produce auto-creates it (store calls are scheduling points)
 }
 
